@@ -1072,6 +1072,12 @@ class Machine:
         sizes = [(len(self.doms[d]['model'][1]) if self.doms[d]['model'][0] == 'finite' else self.doms[d]['model'][1]) for d in dis]
         wrong = (a[5] % 4 == 0)
         arg, t, shape = self.make_weights(sizes, a[5:] + a[:5], wrong)
+        same_shape = [x for x in self.facs if list(x['dense'].shape) == list(sizes)]
+        if not wrong and same_shape and a[6] % 3 == 0:
+            # the very same PatternedTensor object as an existing factor's weights (over possibly other domains)
+            src = same_shape[a[7] % len(same_shape)]
+            arg, t, shape = src['real'].weights, src['dense'].clone(), list(sizes)
+            self.c.inc('probe.factor-shares-weights-object')
         f, exc = self.call(F.FiniteFactor, [self.doms[d]['real'] for d in dis], arg)
         really_wrong = list(shape) != list(sizes)
         if really_wrong:
@@ -1122,8 +1128,14 @@ class Machine:
                     if o['real'].factors.get(ent[0]) is fac:
                         ent[1] = M.s_factor(fac)
         for f in self.facs:
-            if f['real'] is fac:
-                f['dense'] = fac.weights.to_dense().clone()
+            if f['real'] is fac or f['real'].weights is fac.weights:
+                f['dense'] = fac.weights.to_dense().clone()     # factors built over the very same weights object share it
+        for o in self.objs:
+            if 'factors' in o['model']:
+                for ent in o['model']['factors']:
+                    other = o['real'].factors.get(ent[0])
+                    if other is not None and other is not fac and getattr(other, 'weights', None) is fac.weights:
+                        ent[1] = M.s_factor(other)
         return (oi, None, 'ok', False)
 
     def _refresh_factor_models(self, fi):
